@@ -275,7 +275,8 @@ def run_once(cfg, prefix):
         inp = ViewList([('raw', v) for v in elems])
     extra = {}
     if cfg.get('total'):
-        extra['total'] = len(elems)          # the documented size hint for the progress bar, given exactly
+        # the documented size hint for the progress bar: exact, or an estimate that is too small / too large (a hint never changes the result)
+        extra['total'] = {'under': len(elems) // 2, 'zero': 0, 'over': len(elems) + 3}.get(cfg['total'], len(elems))
     elif cfg.get('input') in ('np', 'series', 'index', 'dict', 'range'):
         # iterables with their own idea of truth / equality
         import numpy as np
@@ -356,6 +357,8 @@ def judge(cfg, ob, res: CaseResult):
         res.count('runs_with_a_slow_element')
     if cfg.get('callable', 'method') != 'method':
         res.count('runs_with_callables_without_a_name')
+    if cfg.get('total') in ('under', 'zero', 'over'):
+        res.count('runs_with_an_inaccurate_total_hint')
     if cfg.get('total'):
         res.count('runs_with_total_hint')
         if cfg.get('input') in ('gen', 'iter', 'map'):
@@ -573,7 +576,7 @@ def cases(tier, seed):
         for kind in ('gen', 'iter', 'map', 'list', 'tuple', 'range', 'viewlist'):
             for n, chunk, threads in ((3, 1000, 2), (4, 4, 3), (4, 3, 2), (5, 2, 4), (0, 3, 2), (1, 1, 2), (6, 1000, 1)):
                 odd.append({'impl': impl, 'n': n, 'threads': threads, 'chunk': chunk, 'sort': rng.random() < 0.7, 'policy': 'random', 'pseed': n, 'input': kind,
-                            'tqdm': impl == 'threading' and rng.random() < 0.5, 'total': kind != 'viewlist', 'out': rng.choice(['tuple', 'array', 'hostile']),
+                            'tqdm': impl == 'threading' and rng.random() < 0.5, 'total': rng.choice([True, True, 'under', 'over']) if kind != 'viewlist' else False, 'out': rng.choice(['tuple', 'array', 'hostile']),
                             'callable': rng.choice(['method', 'partial', 'instance'])})
     for i in range(0, len(odd), 12):
         yield {'kind': 'runs', 'cfgs': odd[i:i + 12]}
@@ -602,7 +605,7 @@ def cases(tier, seed):
                'pseed': rng.randrange(1 << 30), 'input': rng.choice(['list', 'list', 'gen', 'tuple', 'np', 'series', 'index', 'dict', 'range', 'iter', 'map', 'viewlist']),
                'callable': rng.choice(['method', 'method', 'partial', 'instance', 'itemgetter_chain']),
                'tqdm': rng.random() < 0.2, 'out': rng.choice(['tuple', 'tuple', 'exc', 'none', 'dict', 'falsy', 'array', 'series', 'hostile']),
-               'total': rng.random() < 0.3}
+               'total': rng.choice([False, False, False, True, True, 'under', 'zero', 'over'])}
         if impl == 'starmap':
             cfg['input'] = 'list'
         if n and rng.random() < 0.2:
